@@ -905,6 +905,20 @@ class Exec(Ops):
         # unpacking a dict iterates its keys (insertion order)
         ks = vv.sort.keys(vv.t)
         vv = SV(vv.sort.keyseq, ks)
+      stars = [i for i, e in enumerate(tg.elts) if isinstance(e, ast.Starred)]
+      if stars and isinstance(vv, SV) and isinstance(vv.sort, SeqOf) and len(stars) == 1:
+        # a, b, *rest, z = seq : needs at least the fixed number of items; rest is the slice in between (a list)
+        k, n = stars[0], len(tg.elts)
+        after = n - k - 1
+        ln = vv.sort.len(vv.t)
+        self.oblige(ln >= n - 1, 'safety:unpack')
+        self.assume(ln >= n - 1)
+        for i in range(k):
+          self.assign(tg.elts[i], SV(vv.sort.elem, vv.sort.get(vv.t, i)), env)
+        self.assign(tg.elts[k].value, self.new_box(self.seq_slice(vv, z3.IntVal(k), ln - after)), env)
+        for j in range(after):
+          self.assign(tg.elts[k + 1 + j], SV(vv.sort.elem, vv.sort.get(vv.t, ln - after + j)), env)
+        return
       if isinstance(vv, SV) and isinstance(vv.sort, SeqOf):
         n = len(tg.elts)
         self.oblige(vv.sort.len(vv.t) == n, 'safety:unpack')
